@@ -349,6 +349,7 @@ func DNSCaching(ttl time.Duration) func(*Attacker) {
 				}()
 			}
 
+			var rngmu sync.Mutex // rand.Rand is not safe for the concurrent dials of several workers
 			rng := rand.New(rand.NewSource(time.Now().UnixNano()))
 
 			tr.DialContext = func(ctx context.Context, network, addr string) (conn net.Conn, err error) {
@@ -374,7 +375,9 @@ func DNSCaching(ttl time.Duration) func(*Attacker) {
 				// shrinks to one address per family.
 				ips = append([]string(nil), ips...)
 
+				rngmu.Lock()
 				rng.Shuffle(len(ips), func(i, j int) { ips[i], ips[j] = ips[j], ips[i] })
+				rngmu.Unlock()
 
 				ips = firstOfEachIPFamily(ips)
 
